@@ -17,7 +17,7 @@
    attribute is a payload edit of one cell reached from the caller's pose by following pointer fields.
    Definitions only (the lemmas are in proofs/C06_GraphProofs.v). *)
 From Coq Require Import ZArith NArith List Bool.
-Require Import ListN Result Bytes F32 Prog Codec PoseRead Graph.
+Require Import ListN Result Bytes F32 Prog Codec PoseRead Graph GraphEdit.
 Import ListNotations.
 Open Scope N_scope.
 
@@ -179,7 +179,11 @@ Definition read_g (s : gstate) (buffer : bytes) (a : rargs) : result nat * gstat
 Inductive gop :=
 | GRead (buffer : bytes) (a : rargs)
 | GEdit (k : nat) (path : list nat) (g : W -> W)   (* in-place edit of an object reached from the k-th pose handed out *)
-| GCopy (k : nat).                                  (* Pose.copy() of the k-th pose handed out *)
+| GCopy (k : nat)                                   (* Pose.copy() of the k-th pose handed out *)
+| GAssign (k : nat) (path : list nat) (i : nat) (w : W)
+    (* attribute assignment of a NEWLY BUILT object without mutable parts of its own - `header.dimensions = PoseHeaderDimensions(..)`,
+       `body.data.mask = m`, `component.points = [...]`: the i-th pointer field of the object at `path` is re-pointed to a new cell *)
+| GPop (k : nat) (path : list nat).                 (* `header.components.pop()`: the last pointer field of the object at `path` is dropped *)
 
 Definition step_g (s : gstate) (o : gop) : gstate * option (result nat) :=
   match o with
@@ -188,6 +192,22 @@ Definition step_g (s : gstate) (o : gop) : gstate * option (result nat) :=
       match nth_error (ghanded s) k with
       | Some root => match addr_at (gheap s) root path with
                      | Some x => ({| gheap := set_pay x g (gheap s); gmem := gmem s; ghanded := ghanded s |}, None)
+                     | None => (s, None)
+                     end
+      | None => (s, None)
+      end
+  | GAssign k path i w =>
+      match nth_error (ghanded s) k with
+      | Some root => match addr_at (gheap s) root path with
+                     | Some x => ({| gheap := assign_child x i (leaf w) (gheap s); gmem := gmem s; ghanded := ghanded s |}, None)
+                     | None => (s, None)
+                     end
+      | None => (s, None)
+      end
+  | GPop k path =>
+      match nth_error (ghanded s) k with
+      | Some root => match addr_at (gheap s) root path with
+                     | Some x => ({| gheap := pop_child x (gheap s); gmem := gmem s; ghanded := ghanded s |}, None)
                      | None => (s, None)
                      end
       | None => (s, None)
